@@ -1,5 +1,161 @@
-//! whole-space sweeps
-pub fn main(_args: &[String]) -> i32 {
-    eprintln!("no sweeps yet");
-    2
+//! Whole-space sweeps judged against TLC-emitted tables.
+//!
+//!   sweep prefix <table.ndjson> <depth> <threads> <out.ndjson>
+//!
+//! The table maps every prefix the specification's byte-feeding automaton visited to its outcome
+//! (ok, status, live, unspec).  Every byte string of length <= depth whose first byte is a table
+//! root is decoded by the real code and compared with the entry of its longest decided prefix (a
+//! table LOOKUP, not a re-implementation of the decoder).  Panics are data.
+use ctap_types::ctap2;
+use serde_json::{json, Value};
+use std::collections::HashMap;
+use std::io::{BufRead, Write};
+use std::sync::atomic::{AtomicU64, Ordering};
+use std::sync::{Arc, Mutex};
+
+#[derive(Clone, Copy)]
+struct Entry { ok: bool, status: u8, live: bool, unspec: bool }
+
+fn real(wire: &[u8]) -> Result<(bool, u8), String> {
+    let r = std::panic::catch_unwind(|| match ctap2::Request::deserialize(wire) {
+        Ok(_) => (true, 0u8),
+        Err(e) => (false, e as u8),
+    });
+    r.map_err(|_| crate::PANIC_MSG.lock().unwrap().clone())
+}
+
+struct Ctx {
+    table: HashMap<Vec<u8>, Entry>,
+    depth: usize,
+    checked: AtomicU64,
+    unspec: AtomicU64,
+    mismatches: Mutex<Vec<Value>>,
+}
+
+impl Ctx {
+    fn judge(&self, wire: &[u8], e: Entry, via: &[u8]) {
+        self.checked.fetch_add(1, Ordering::Relaxed);
+        let got = real(wire);
+        let bad = match &got {
+            Err(_) => true,
+            Ok((ok, st)) => {
+                if e.unspec {
+                    self.unspec.fetch_add(1, Ordering::Relaxed);
+                    !(*ok && *st == 0 || !*ok && [1u8, 0x12, 0x14].contains(st))
+                } else {
+                    *ok != e.ok || *st != e.status
+                }
+            }
+        };
+        if bad {
+            let mut m = self.mismatches.lock().unwrap();
+            if m.len() < 200 {
+                m.push(json!({"wire": crate::proj::bytes(wire), "via": crate::proj::bytes(via),
+                    "expected": {"ok": e.ok, "status": e.status, "unspec": e.unspec},
+                    "got": match got { Ok((ok, st)) => json!({"ok": ok, "status": st}), Err(msg) => json!({"panic": msg}) }}));
+            }
+        }
+    }
+
+    /// all strings extending `p` (decided by entry e at prefix `via`) up to the depth
+    fn subtree(&self, p: &mut Vec<u8>, e: Entry, via: &[u8]) {
+        self.judge(p, e, via);
+        if p.len() < self.depth {
+            for x in 0..=255u8 {
+                p.push(x);
+                self.subtree(p, e, via);
+                p.pop();
+            }
+        }
+    }
+
+    fn walk(&self, p: &mut Vec<u8>) {
+        let e = match self.table.get(p.as_slice()) {
+            Some(e) => *e,
+            None => {
+                let mut m = self.mismatches.lock().unwrap();
+                m.push(json!({"wire": crate::proj::bytes(p), "tool": "prefix missing from the table"}));
+                return;
+            }
+        };
+        if e.live && !e.unspec {
+            // the exact prefix is judged; its extensions are in the table (or beyond the depth)
+            self.judge(p, e, p);
+            if p.len() < self.depth {
+                for x in 0..=255u8 {
+                    p.push(x);
+                    self.walk(p);
+                    p.pop();
+                }
+            }
+        } else {
+            let via = p.clone();
+            self.subtree(p, e, &via);
+        }
+    }
+}
+
+pub fn main(args: &[String]) -> i32 {
+    if args.len() < 5 || args[0] != "prefix" {
+        eprintln!("usage: sweep prefix <table.ndjson> <depth> <threads> <out.ndjson>");
+        return 2;
+    }
+    let depth: usize = args[2].parse().expect("depth");
+    let threads: usize = args[3].parse().expect("threads");
+    let f = std::io::BufReader::new(std::fs::File::open(&args[1]).expect("open table"));
+    let mut table = HashMap::new();
+    let mut roots = vec![];
+    for line in f.lines() {
+        let v: Value = serde_json::from_str(&line.expect("read")).expect("json");
+        let p: Vec<u8> = v["p"].as_array().unwrap().iter().map(|x| x.as_u64().unwrap() as u8).collect();
+        if p.len() == 1 {
+            roots.push(p[0]);
+        }
+        table.insert(p, Entry { ok: v["ok"].as_bool().unwrap(), status: v["status"].as_u64().unwrap() as u8,
+                                 live: v["live"].as_bool().unwrap(), unspec: v["unspec"].as_bool().unwrap() });
+    }
+    let ctx = Arc::new(Ctx { table, depth, checked: AtomicU64::new(0), unspec: AtomicU64::new(0), mismatches: Mutex::new(vec![]) });
+    // work items: (root, second byte) pairs, distributed over threads
+    let mut items: Vec<Vec<u8>> = vec![];
+    for r in &roots {
+        items.push(vec![*r]);
+    }
+    let items = Arc::new(Mutex::new(items));
+    // split live roots one level further for parallelism
+    {
+        let mut it = items.lock().unwrap();
+        let mut next = vec![];
+        for p in it.drain(..) {
+            let e = ctx.table.get(&p).copied();
+            match e {
+                Some(e) if e.live && !e.unspec && depth >= 2 => {
+                    ctx.judge(&p, e, &p);
+                    for x in 0..=255u8 { let mut q = p.clone(); q.push(x); next.push(q); }
+                }
+                _ => next.push(p),
+            }
+        }
+        *it = next;
+    }
+    let mut hs = vec![];
+    for _ in 0..threads.max(1) {
+        let (ctx, items) = (ctx.clone(), items.clone());
+        hs.push(std::thread::Builder::new().stack_size(64 << 20).spawn(move || loop {
+            let job = items.lock().unwrap().pop();
+            match job {
+                Some(mut p) => ctx.walk(&mut p),
+                None => break,
+            }
+        }).unwrap());
+    }
+    for h in hs { h.join().ok(); }
+    let mut w = std::io::BufWriter::new(std::fs::File::create(&args[4]).expect("create out"));
+    let m = ctx.mismatches.lock().unwrap();
+    for x in m.iter() {
+        writeln!(w, "{}", x).unwrap();
+    }
+    writeln!(w, "{}", json!({"summary": true, "checked": ctx.checked.load(Ordering::Relaxed),
+        "unspec": ctx.unspec.load(Ordering::Relaxed), "mismatches": m.len(), "table": ctx.table.len(), "depth": depth})).unwrap();
+    w.flush().unwrap();
+    0
 }
